@@ -250,19 +250,25 @@ def interop(ctx, rounds):
             elif what == "SETTA":
                 r = tc.cmd("SETTA", rng.choice([0, 1, 63, -1, -128, 127]))
             elif what in ("H1", "H1long"):
-                band = rng.choice([list(range(1, 125)), list(range(512, 886)), list(range(975, 1024)) + [0]])
-                m = rng.randint(1, 8) if what == "H1" else rng.choice([9, 16, 33, 64, 64])
-                ma = sorted(rng.sample(band, min(m, len(band))))
-                r = tc.cmd("H1", rng.randrange(64), rng.randrange(64), *ma)
+                band = rng.choice([list(range(1, 125)), list(range(512, 886)), list(range(512, 886)), list(range(975, 1024)) + [0]])
+                m = rng.randint(1, 8) if what == "H1" else rng.choice([9, 16, 33, 61, 62, 63, 64, 64])
+                ma = rng.sample(band, min(m, len(band)))
+                if rng.random() < 0.7:
+                    ma.sort()
+                h1arg = (rng.randrange(64), rng.randrange(64)) + tuple(ma)
+                r = tc.cmd("H1", *h1arg)
             else:
                 r = tc.cmd(what)
             if r is None:
                 break
+            h1 = [dict(hsn=h1arg[0], maio=h1arg[1], ma=list(h1arg[2:]))] if what in ("H1", "H1long") else []
             if r["rc"] != 0 and not r["sent"]:
+                if h1:           # a hopping list refused without anything sent: only for a list that does not fit
+                    cev.append(dict(e="h1refused", h1=h1[0], rc=r["rc"]))
                 continue         # refused locally (e.g. undefined ARFCN): nothing queued
             crit = [what != "SETTA"] * n
             ev = dict(e="enq", texts=[list(bytes(r["sent"][0])[:-1])] if r["sent"] else [], crit=crit, n=n,
-                      status=status(r), sent=r["sent"])
+                      status=status(r), sent=r["sent"], h1=h1)
             cev.append(ev)
             pending = ev if n == 2 else None
             exchange(r["sent"])
